@@ -17,20 +17,25 @@ import (
 
 // payload kinds of the alphabet
 const (
-	pEmpty   = iota
-	pGood    // capability map with the accepted user/token
-	pBad     // capability map with a rejected token
-	pForgedU // no credentials, __qi_auth_state = uint 3
-	pForgedI // no credentials, __qi_auth_state = int 3
-	pUserInt // auth_user is an int value, token good
-	pGarbage // 10 garbage bytes
-	pArg     // an int32 argument (for echo)
-	pNoCreds // well-formed map without credentials
-	pTokInt  // auth_token is an int value, user good
+	pEmpty     = iota
+	pGood      // capability map with the accepted user/token
+	pBad       // capability map with a rejected token
+	pForgedU   // no credentials, __qi_auth_state = uint 3
+	pForgedI   // no credentials, __qi_auth_state = int 3
+	pUserInt   // auth_user is an int value, token good
+	pGarbage   // 10 garbage bytes
+	pArg       // an int32 argument (for echo)
+	pNoCreds   // well-formed map without credentials
+	pTokInt    // auth_token is an int value, user good
+	pSpaceU    // accepted pair with a blank before the user
+	pSpaceT    // accepted pair with a blank after the token
+	pNewline   // accepted pair with a newline after the token
+	pUserOnly  // well-formed map with the accepted user only
+	pTokenOnly // well-formed map with the accepted token only
 	nPayload
 )
 
-var payloadNames = []string{"empty", "good-creds", "bad-creds", "forged-state-uint", "forged-state-int", "user-as-int", "garbage", "int32", "no-creds", "token-as-int"}
+var payloadNames = []string{"empty", "good-creds", "bad-creds", "forged-state-uint", "forged-state-int", "user-as-int", "garbage", "int32", "no-creds", "token-as-int", "blank+user", "token+blank", "token+newline", "user-only", "token-only"}
 
 func payload(kind int) []byte {
 	switch kind {
@@ -58,6 +63,20 @@ func payload(kind int) []byte {
 		return fx.Int32(5)
 	case pNoCreds:
 		return fx.CapPayload(bus.DefaultCap())
+	case pSpaceU:
+		return fx.CapPayload(bus.ClientCap(" u", "t"))
+	case pSpaceT:
+		return fx.CapPayload(bus.ClientCap("u", "t "))
+	case pNewline:
+		return fx.CapPayload(bus.ClientCap("u", "t\n"))
+	case pUserOnly:
+		m := bus.DefaultCap()
+		m[bus.KeyUser] = value.String("u")
+		return fx.CapPayload(m)
+	case pTokenOnly:
+		m := bus.DefaultCap()
+		m[bus.KeyToken] = value.String("t")
+		return fx.CapPayload(m)
 	case pTokInt:
 		m := bus.DefaultCap()
 		m[bus.KeyUser] = value.String("u")
@@ -79,6 +98,16 @@ func creds(kind int) (user, token string, ok bool) {
 		return "u", "wrong", true
 	case pForgedU, pForgedI, pNoCreds:
 		return "", "", true
+	case pSpaceU:
+		return " u", "t", true
+	case pSpaceT:
+		return "u", "t ", true
+	case pNewline:
+		return "u", "t\n", true
+	case pUserOnly:
+		return "u", "", true
+	case pTokenOnly:
+		return "", "t", true
 	}
 	return "", "", false
 }
@@ -100,7 +129,7 @@ func alphabet(full bool) []frame {
 	// frames addressed to service 0
 	for _, t := range types {
 		for _, tgt := range [][3]uint32{{0, 0, 8}, {0, 1, 8}, {0, 0, 0}} {
-			pays := []int{pGood, pBad, pForgedU, pForgedI, pUserInt, pTokInt, pGarbage, pEmpty, pNoCreds}
+			pays := []int{pGood, pBad, pForgedU, pForgedI, pUserInt, pTokInt, pGarbage, pEmpty, pNoCreds, pSpaceU, pSpaceT, pNewline, pUserOnly, pTokenOnly}
 			if !full && (t != net.Call && t != net.Capability || tgt[1] != 0) {
 				pays = []int{pGood, pForgedU}
 			}
@@ -265,6 +294,7 @@ func closedEarlier(seq []frame, i int) bool {
 	}
 	return false
 }
+
 // rejectWriteFails: the peer stopped reading (every write of the server on
 // that connection fails) but keeps sending: the refused connection must be
 // closed all the same, and nothing reaches a service.
@@ -300,6 +330,7 @@ func rejectWriteFails() {
 	fx.Settle()
 	vrt.Observe("%s typ=%d bad=%v closed=%v ran=%d", ak.name, typ, bad, a.Raw.Peer().Closed(), w.Root.Total())
 }
+
 // slowAuth is an authenticator that takes its time for the good pair: the
 // harness decides when its verdict comes.
 type slowAuth struct {
@@ -372,7 +403,54 @@ func slowAuthenticator() {
 	vrt.Observe("late=%v entered=%d ran=%d", late, sa.entered, w.Root.Total())
 }
 
+// afterLogin: connection A logs in with the accepted pair; then connection B
+// presents every other payload of the alphabet (nothing, one half of the
+// pair, forged states, near misses) and calls a service: what A presented
+// earns B nothing.
+func afterLogin() {
+	ak := auths[0] // the dictionary authenticator: exactly ("u","t")
+	w := fx.Start(ak.auth)
+	a, b := w.RawPeer(), w.RawPeer()
+	a.StartDrain()
+	b.StartDrain()
+	kinds := []int{pEmpty, pNoCreds, pUserOnly, pTokenOnly, pBad, pForgedU, pForgedI, pUserInt, pTokInt, pSpaceU, pSpaceT, pNewline, pGarbage}
+	kind := kinds[vrt.ChooseFree(len(kinds), "payload of the second connection")]
+	typ := []uint8{net.Call, net.Post, net.Capability}[vrt.ChooseFree(3, "type")]
+	vrt.Explore()
+	if !a.Authenticate("u", "t") {
+		vrt.Failf("good-credentials-refused/"+ak.name, "the accepted pair was refused")
+		return
+	}
+	b.Send(typ, 0, 0, 8, b.NextID(), payload(kind))
+	vrt.Quiesce()
+	id := b.NextID()
+	b.Send(net.Call, 1, 1, 100, id, fx.Int32(9))
+	vrt.Quiesce()
+	if w.Root.Total() > 0 {
+		vrt.Failf("other-connection-authenticated/after-login", "after connection A logged in, connection B presented [%s] (message type %d) and reached the service: %v", payloadNames[kind], typ, w.Root.Order)
+	}
+	for _, r := range b.Replies(id) {
+		if r.Hdr.Type == net.Reply {
+			vrt.Failf("reply-from-service-unauthenticated/after-login", "connection B got a success reply after presenting [%s]", payloadNames[kind])
+		}
+	}
+	if !b.EOF {
+		vrt.Failf("unauthenticated-connection-not-closed/after-login", "connection B is still open after calling a service having presented only [%s]", payloadNames[kind])
+	}
+	// A is still served
+	ida := a.NextID()
+	a.Send(net.Call, 1, 1, 100, ida, fx.Int32(4))
+	vrt.Quiesce()
+	if rs := a.Replies(ida); len(rs) != 1 || rs[0].Hdr.Type != net.Reply {
+		vrt.Failf("authenticated-connection-refused/after-login", "connection A, which is authenticated, cannot call the service any more")
+	}
+	fx.Settle()
+	vrt.Observe("kind=%s typ=%d", payloadNames[kind], typ)
+}
+
 func init() {
+	reg.Register(&reg.Scenario{Property: "C06", Name: "second-connection-after-a-login", Body: afterLogin, Quick: 0, Thorough: 1,
+		Doc: "connection A authenticates with the accepted pair; connection B then presents one of 13 other payloads (nothing, half of the pair, forged states, near misses with blanks) as Call / Post / Capability and calls a service: refused and closed"})
 	reg.Register(&reg.Scenario{Property: "C06", Name: "slow-authenticator", Body: slowAuthenticator, Quick: 1, Thorough: 2,
 		Doc: "the authenticator takes arbitrarily long for connection A's good pair; connection B presents a bad pair before or after A's verdict arrives, then calls a service: B is refused and closed", MustFlag: []string{"slow-verdict-accepted"}})
 	reg.Register(&reg.Scenario{Property: "C06", Name: "reject-answer-cannot-be-written", Body: rejectWriteFails, Quick: 1, Thorough: 2,
